@@ -3,7 +3,7 @@
 import re, random
 from . import common as C
 from .runner import Prop, Batch
-from .frpgen import Profile, gen_scripts, is_K1, is_K5, is_K3_leak, is_K3_lazy
+from .frpgen import Profile, gen_scripts, is_K1, is_K5, is_K3_leak, is_K3_lazy, is_K6
 
 
 def strip_ann(lines):
@@ -120,6 +120,8 @@ class FrpProp(Prop):
 
     def known_class(self, batch, name, lines, out, why):
         leak = "still alive after every handle was dropped" in why
+        if (leak or "FreedNonZero" in why) and is_K6(lines):
+            return "K6"
         if leak and is_K5(lines):
             return "K5"
         if leak and is_K3_leak(lines):
@@ -623,7 +625,7 @@ class C07(GcBacked):
                   "buffer is empty. The hypothesis (contract) is measured on the real heap by the audit after every collection; the "
                   "end-of-script teardown (drop every handle, unlisten, empty transaction, collect) must leave node_count = 0 on the real "
                   "library. Leaks through references no tracer reports are exactly what these two detectors find (known finding K5 is "
-                  "classified by a computable predicate; K1 and K3 have been repaired in /repo). FRP level (Model/Heap.v, Proofs/HeapFacts.v): every "
+                  "classified by a computable predicate, as is K6 - an escaped unforced Lazy of a cell whose user function captures handles; K1 and K3 have been repaired in /repo). FRP level (Model/Heap.v, Proofs/HeapFacts.v): every "
                   "primitive of the static fragment (sinks, map/filter/merge/snapshot/gate, hold, updates, value, map_c, lift2..6, accum, "
                   "collect, defer, split, loops, strong/weak/cell listeners, clone/drop/unlisten) is compiled to collector-model operations; "
                   "theorem C07_program_teardown_frees_all: for EVERY program of the fragment, after it releases what it holds one collection "
